@@ -373,3 +373,94 @@ impl<'a> Packet<'a> {
 fn vx_token_random<CB: Callback>(cb: &mut CB) -> (r: Token)
     ensures r != TOKEN_NONE, r != TOKEN_RESERVED, (*final(cb)).sent() == (*old(cb)).sent(),
 { unimplemented!() }
+
+// ---- delivery to the application ------------------------------------------------------------------------------------
+// deliver(d, ack): what ReceiveChunks::next hands out from payload `d` when the replayed acknowledged sequence number is `ack`:
+// (chunk bytes, vital?, ack afterwards, remaining payload) -- or None when no further chunk is delivered.
+spec fn deliver(d: Seq<u8>, ack: u16) -> Option<(Seq<u8>, bool, u16, Seq<u8>)>
+    decreases d.len()
+{
+    if !chunk_fits(d) { None } else {
+        let hl = chunk_hl(d);
+        let size = ch_size(d[0], d[1]) as int;
+        let rest = d.subrange(hl + size, d.len() as int);
+        let data = d.subrange(hl, hl + size);
+        if is_vital(d[0]) {
+            if ch_seq(d[1], d[2]) == (ack + 1) % 1024 { Some((data, true, ch_seq(d[1], d[2]), rest)) } else { deliver(rest, ack) }
+        } else { Some((data, false, ack, rest)) }
+    }
+}
+// the replayed ack after the application has drained the iterator
+spec fn drained_ack(d: Seq<u8>, ack: u16) -> u16
+    decreases d.len()
+{
+    if !chunk_fits(d) { ack } else {
+        let hl = chunk_hl(d);
+        let size = ch_size(d[0], d[1]) as int;
+        let rest = d.subrange(hl + size, d.len() as int);
+        match deliver(d, ack) { None => ack, Some(x) => if x.3.len() < d.len() { drained_ack(x.3, x.2) } else { ack } }
+    }
+}
+// number of vital chunks handed to the application while draining
+spec fn delivered_vital(d: Seq<u8>, ack: u16) -> nat
+    decreases d.len()
+{
+    match deliver(d, ack) { None => 0, Some(x) => if x.3.len() < d.len() { (if x.1 { 1nat } else { 0nat }) + delivered_vital(x.3, x.2) } else { 0 } }
+}
+proof fn lemma_deliver_shrinks(d: Seq<u8>, ack: u16)
+    ensures deliver(d, ack) is Some ==> deliver(d, ack)->Some_0.3.len() < d.len(),
+    decreases d.len()
+{
+    if chunk_fits(d) {
+        let hl = chunk_hl(d); let size = ch_size(d[0], d[1]) as int;
+        let rest = d.subrange(hl + size, d.len() as int);
+        if is_vital(d[0]) && ch_seq(d[1], d[2]) != (ack + 1) % 1024 { lemma_deliver_shrinks(rest, ack); }
+    }
+}
+// COMPOSITION of the two passes over a received payload: the ack recorded by ReceivePacket::connected (acks_after) is exactly the
+// ack the application's replay ends with (drained_ack) -- every vital chunk that was acknowledged is handed out, and none is handed
+// out that was not acknowledged -- and the ack moved by exactly the number of vital chunks delivered (mod 1024).
+proof fn lemma_ack_equals_delivery(d: Seq<u8>, ack: u16)
+    requires ack < 1024,
+    ensures
+        acks_after(d, ack) == drained_ack(d, ack),
+        acks_after(d, ack) as int == (ack + delivered_vital(d, ack)) % 1024,
+        acks_after(d, ack) < 1024,
+    decreases d.len()
+{
+    if chunk_fits(d) {
+        let hl = chunk_hl(d); let size = ch_size(d[0], d[1]) as int;
+        let rest = d.subrange(hl + size, d.len() as int);
+        lemma_deliver_shrinks(d, ack);
+        if is_vital(d[0]) {
+            let s = ch_seq(d[1], d[2]);
+            if s == (ack + 1) % 1024 {
+                lemma_ack_equals_delivery(rest, s);
+                assert((ack + 1 + delivered_vital(rest, s)) % 1024 == (((ack + 1) % 1024) + delivered_vital(rest, s)) % 1024) by (nonlinear_arith);
+            } else {
+                lemma_ack_equals_delivery(rest, ack);
+                lemma_drain_skip(d, ack);
+            }
+        } else {
+            lemma_ack_equals_delivery(rest, ack);
+        }
+    }
+}
+// skipping an out-of-order vital chunk at the front changes nothing for the replay
+proof fn lemma_drain_skip(d: Seq<u8>, ack: u16)
+    requires chunk_fits(d), is_vital(d[0]), ch_seq(d[1], d[2]) != (ack + 1) % 1024,
+    ensures ({
+        let rest = d.subrange(chunk_hl(d) + ch_size(d[0], d[1]) as int, d.len() as int);
+        drained_ack(d, ack) == drained_ack(rest, ack) && delivered_vital(d, ack) == delivered_vital(rest, ack)
+    }),
+{
+    let rest = d.subrange(chunk_hl(d) + ch_size(d[0], d[1]) as int, d.len() as int);
+    lemma_deliver_shrinks(d, ack);
+    lemma_deliver_shrinks(rest, ack);
+    assert(deliver(d, ack) == deliver(rest, ack));
+    if deliver(rest, ack) is Some {
+        if !chunk_fits(rest) { assert(false); }
+    } else {
+        if chunk_fits(rest) { } else { }
+    }
+}
